@@ -104,6 +104,7 @@ package messages
 //@   ensures result.1 != nil ==> r.pos == old(r.pos) && r.err != nil
 
 //@ func (*Reader).ReadBytes
+//@   allocbound len(r.buf)
 //@   requires rwf(r) && 0 <= n
 //@   modifies r.pos, r.err
 //@   ensures rwf(r)
@@ -116,6 +117,7 @@ package messages
 //@   ensures result == r.pos
 
 //@ func (*Reader).ReadBytesWithLength
+//@   allocbound len(r.buf)
 //@   requires rwf(r)
 //@   modifies r.pos, r.err
 //@   ensures rwf(r)
@@ -131,6 +133,7 @@ package messages
 //@   ensures old(r.err) != nil ==> result.1 != nil
 
 //@ func (*Reader).ReadString
+//@   allocbound len(r.buf)
 //@   requires rwf(r)
 //@   modifies r.pos, r.err
 //@   ensures rwf(r)
